@@ -2,14 +2,14 @@
 """store_seeded.py <ID> <name> <caught_by;...> : copy /tmp/seeded-<ID> into /verif/seeded/<ID>-<name>/ with a normalised meta.json"""
 import json,sys,os,shutil,glob
 pid,name,caught=sys.argv[1],sys.argv[2],sys.argv[3]
-src=f'/tmp/seeded-{pid}'; dst=f'/verif/seeded/{pid}-{name}'
+src=f'/tmp/seeded-{pid}'; dst=f'/verif/seeded/{pid}-{name}'; prop=pid[:3]
 os.makedirs(dst,exist_ok=True)
 for f in glob.glob(src+'/*'):
     b=os.path.basename(f)
     if b.endswith('.log') or b=='meta.json': continue
     shutil.copy(f,dst)
 m=json.load(open(src+'/meta.json'))
-out={"property":pid,
+out={"property":prop,
  "breaks":m.get('summary') or m.get('breaks'),
  "needs_to_manifest":m.get('needs') or m.get('needs_to_manifest'),
  "origin":"written by an independent sub-agent that saw only the property text and a scratch worktree",
